@@ -135,7 +135,60 @@ def point_task(payload):
     return res
 
 
+UNIT_PARAMS = {'Reservoir Temperature': 'degC', 'Rejection Temperature': 'degC', 'Reservoir Area': 'km**2', 'Reservoir Thickness': 'kilometer',
+               'Density Of Reservoir Rock': 'kg/km**3', 'Density Of Reservoir Fluid': 'kg/km**3', 'Reservoir Depth': 'kilometer', 'Reservoir Pressure': 'MPa'}
+
+
+def unit_task(payload):
+    """inputs written in other listed units give the same results (every convertible catalogue unit of the parameter's dimension)."""
+    from vf.oracles import units_ref as UR
+    res = check.new_result()
+    base = dict(BASE)
+    base.update(payload.get('extra', {}))
+    tag = runner.fork_exec(hip_run, base, timeout=120)
+    res['execs'] += 1
+    if tag[0] != 'ok' or tag[1]['status'] != 'accepted':
+        res['infra'].append(f'HIP unit base failed: {tag[1]}')
+        return res
+    b = tag[1]['out']
+    for name, decl in payload['params']:
+        v = base.get(name)
+        if v is None:
+            continue
+        dims = UR.dims(decl)
+        table = UR.TEMP if dims == ['temperature'] else UR.LIN[dims[0]]
+        for U in table:
+            if U == UR.norm(decl) or U in ('m', 'km', 'mi', 'K'):
+                continue
+            vp = float(f'{UR.convert(v, decl, U):.12g}')
+            p2 = dict(base)
+            p2[name] = f'{vp!r} {U}'
+            t2 = runner.fork_exec(hip_run, p2, timeout=120)
+            res['execs'] += 1
+            res['steps'] += 1
+            d = check.digest(['unit', name, U, sorted(payload.get('extra', {}))])
+            res['states'].append(d)
+            utype = dims[0]
+            if t2[0] != 'ok':
+                res['infra'].append(f'HIP run failed: {t2[1]}')
+                continue
+            if t2[1]['status'] != 'accepted':
+                res['not_accepted'] += 1
+                check.fail(res, f'units/rejected/{utype}/{U}', f'"{name}, {vp} {U}" (= {v} {decl}) is rejected: {t2[1]["exc"][:160]}')
+                continue
+            res['accepted'] += 1
+            res['nontrivial'].append(d)
+            o2 = t2[1]['out']
+            bad = [k for k in b if not mv.close(o2.get(k, math.nan), b[k], 1e-7, 1e-300)]
+            if bad:
+                check.fail(res, f'units/results_differ/{utype}/{U}/{name}', f'"{name}, {vp} {U}" instead of {v} {decl} changes {bad[:4]}: e.g. {b[bad[0]]!r} -> {o2.get(bad[0])!r}')
+    res['sample'] = {'hip_ra_x_units': {'params': payload['params'], 'extra': payload.get('extra', {})}}
+    return res
+
+
 def task(payload):
+    if payload.get('kind') == 'units':
+        return unit_task(payload)
     return point_task(payload)
 
 
@@ -184,6 +237,11 @@ def plan(tier, seed):
         if ns:
             P.append({'points': ns, 'scale': []})
     plan.alphabets = {k: v for k, v in al.items()}
+    extras = [{}, {'Density Of Reservoir Rock': 2.6e12, 'Density Of Reservoir Fluid': 9.0e11, 'Reservoir Depth': 4.0, 'Reservoir Pressure': 40.0}]
+    for extra in extras:
+        for name, decl in UNIT_PARAMS.items():
+            if name in BASE or name in extra:
+                P.append({'kind': 'units', 'params': [[name, decl]], 'extra': extra})
     return P
 
 
@@ -193,7 +251,8 @@ def run(tier, seed, budget=None):
         rule=('the real HIP_RA_X object driven as its main() does; every parameter alphabet {Min, Max, two interior points, base/2, 2xbase} '
               'discovered from the live parameter dictionary: all single deviations and all pairs of deviations (quick: 3 values per parameter '
               'in pairs) from the base; volumetric identities, additivity and the heat cascade on every accepted point; area and thickness '
-              'scaled by k in {0.5,2,10} on every single-deviation point (and on temperature/porosity pairs in thorough). Non-trivial = stored '
+              'scaled by k in {0.5,2,10} on every single-deviation point (and on temperature/porosity pairs in thorough); every unit-bearing input '
+              're-expressed in every convertible catalogue unit. Non-trivial = stored '
               'heat positive and producible heat finite'),
-        assumptions=['unit-spelling variants of the inputs are covered by C06 machinery and not repeated here',
+        assumptions=['unit variants: every convertible catalogue unit for temperature, area, thickness, density, depth and pressure inputs (own conversion table)',
                      'outputs that the calculator never fills (rock/fluid split of available and producible heat) are 0 in every run and only checked for invariance'])
